@@ -15,10 +15,10 @@ import (
 )
 
 type c17Event struct {
-	At     int    `json:"at"`   // virtual ms since the sequencer started
-	Op     string `json:"op"`   // submit | failnext | fatalnext | cancel
+	At     int    `json:"at"` // virtual ms since the sequencer started
+	Op     string `json:"op"` // submit | failnext | fatalnext | cancel
 	Low    bool   `json:"low,omitempty"`
-	DupOf  int    `json:"dup_of,omitempty"` // 1-based index of an earlier submit event, 0 = new entry
+	DupOf  int    `json:"dup_of,omitempty"`       // 1-based index of an earlier submit event, 0 = new entry
 	Cancel int    `json:"cancel_after,omitempty"` // cancel the request context after this many ms (0 = never)
 }
 
